@@ -204,7 +204,7 @@ pub fn replay(_e: &Engine, case: &Value, obs: &mut Obs) -> Result<(), Fail> {
 
 pub fn cfg_strategy() -> BoxedStrategy<SvgCfg> {
     (
-        prop_oneof![4 => Just(None), 2 => Just(Some(0usize)), 6 => (0usize..=16).prop_map(Some), 1 => (17usize..=300).prop_map(Some)],
+        prop_oneof![4 => Just(None), 2 => Just(Some(0usize)), 6 => (0usize..=16).prop_map(Some), 1 => (17usize..=300).prop_map(Some), 1 => crate::svgcase::boundary_margin(100_000).prop_map(Some)],
         vec((0usize..6, prop_oneof![1 => Just(None), 1 => any_color().prop_map(Some)]), 0..=4),
         prop_oneof![1 => Just(None), 2 => any_color().prop_map(Some)],
         prop_oneof![1 => Just(None), 2 => any_color().prop_map(Some)],
@@ -229,7 +229,7 @@ pub fn small_build() -> BoxedStrategy<BuildCase> {
 pub fn run(e: &'static Engine) {
     e.set_rule(
         "Enumerated: every version once with the default builder; every built-in shape alone; every ordered pair of shapes as two \
-         layers (on V1-V3 symbols). Generated: QR (versions weighted small, any level/mask) x margin (unset, 0, 0..=16) x a program \
+         layers (on V1-V3 symbols). Generated: QR (versions weighted small, any level/mask) x margin (unset, 0, 0..=16, 17..=300, and margins that put module coordinates on 10^k / 2^k boundaries up to 100 000) x a program \
          of 0..4 shape()/shape_color() calls over the 6 built-ins x colours as [u8;3], [u8;4] (alpha 0, 1..254, 255) or benign CSS \
          strings x module/background colours x image in {none, URL with &, data URI, relative/Windows path, printable ASCII and \
          non-ASCII text} x image size / gap / position overrides (absent, or size 0..1e9, gap from below minus half the size to 1e6, position anywhere incl. exactly 0.0 and negative) with forced insertion of & < > \" ' ]]> -- &amp; &#x. Oracle: roxmltree parses the document; root svg with \
